@@ -33,10 +33,16 @@ def main() -> int:
             ctx.write_evidence()
     except MachineryError as e:
         print(f"MACHINERY-FAILURE property={prop}: {e}", file=sys.stderr)
+        if ctx.violations:            # violations already observed on the real code stand, whatever stopped the run afterwards
+            print(f"{prop}: {len(ctx.violations)} violation(s) (run incomplete)")
+            return 1
         return 2
     except Exception:
         traceback.print_exc()
         print(f"MACHINERY-FAILURE property={prop}: harness exception", file=sys.stderr)
+        if ctx.violations:
+            print(f"{prop}: {len(ctx.violations)} violation(s) (run incomplete)")
+            return 1
         return 2
     finally:
         ctx.close()
